@@ -163,7 +163,7 @@ fn grammar_classes(ctx: &mut Ctx, g: &Gram) {
     if g.rules.iter().any(|r| SHADOW_NAMES.contains(&r.name.as_str())) { ctx.class("g:shadowed-builtin"); }
 }
 
-fn check_case(ctx: &mut Ctx, g: &Gram, specs: &[InputSpec]) -> Result<(), Fail> {
+pub fn check_case(ctx: &mut Ctx, g: &Gram, specs: &[InputSpec]) -> Result<(), Fail> {
     let t0 = std::time::Instant::now();
     let prep = prepare(ctx, g)?;
     if std::env::var_os("VERIF_DEBUG_SLOW").is_some() && t0.elapsed().as_millis() > 100 {
